@@ -345,3 +345,62 @@ def gen_hydro_cut(trees):
         out += 'Definition cutex_%s_bonded : graph := %s.\n' % (key, rec['m2'])
         out += 'Definition cutex_%s_squashed : graph := %s.\n\n' % (key, rec['sq'])
     return out
+
+
+# ---------------------------------------------------------------------------------------------------------------
+# AromGen: the constants of the installed pysmiles that theories/Hydro/Aromatic.v (model of
+# smiles_helper.correct_aromatic_rings / dekekulize) reads, obtained by IMPORTING the library: AROMATIC_ATOMS and the
+# default thresholds of dekekulize (taken from its source text; fail closed when the two `if ... is not None else N`
+# lines are no longer there), and the parameter lists of the functions the model follows.
+_AROM_PROBE = r'''
+import inspect, json, re
+from pysmiles import smiles_helper as SH
+src = inspect.getsource(SH.dekekulize)
+thr = re.findall(r'estimation_threshold = estimation_threshold if estimation_threshold is not None else (\d+)', src)
+mrs = re.findall(r'max_ring_size = max_ring_size if max_ring_size is not None else (\d+)', src)
+if len(thr) != 1 or len(mrs) != 1:
+    raise SystemExit('defaults of dekekulize not found')
+sigs = {f: list(inspect.signature(getattr(SH, f)).parameters) for f in
+        ('correct_aromatic_rings', 'dekekulize', '_prune_nodes', '_ring_is_aromatic', '_estimate_aromatic_cycles')}
+at = list(SH.AROMATIC_ATOMS)
+if not all(isinstance(x, str) for x in at):
+    raise SystemExit('AROMATIC_ATOMS is not a list of strings')
+print(json.dumps({'atoms': at, 'threshold': int(thr[0]), 'max_ring': int(mrs[0]), 'sigs': sigs}))
+'''
+_AROM_SIGS = {'correct_aromatic_rings': ['mol', 'strict', 'estimation_threshold', 'max_ring_size'],
+              'dekekulize': ['mol', 'estimation_threshold', 'max_ring_size'],
+              '_prune_nodes': ['nodes', 'mol'], '_ring_is_aromatic': ['mol', 'nodes'],
+              '_estimate_aromatic_cycles': ['mol']}
+
+
+def probe_arom():
+    try:
+        import pysmiles  # noqa: F401
+        exe = sys.executable
+    except ImportError:
+        exe = '/venv/bin/python'
+    try:
+        p = subprocess.run([exe, '-W', 'ignore', '-c', _AROM_PROBE], stdout=subprocess.PIPE, stderr=subprocess.PIPE,
+                           text=True, timeout=120, env=dict(os.environ))
+    except (OSError, subprocess.TimeoutExpired) as exc:
+        raise Unsupported('cannot run the installed pysmiles: %s' % exc)
+    if p.returncode != 0:
+        raise Unsupported('probing pysmiles.smiles_helper (aromaticity) failed: %s' % (p.stderr or p.stdout)[-500:])
+    line = [l for l in p.stdout.splitlines() if l.startswith('{')]
+    if not line:
+        raise Unsupported('no answer from the aromaticity probe')
+    return json.loads(line[-1])
+
+
+@_target('AromGen', [])
+def gen_arom(trees):
+    pr = probe_arom()
+    if pr['sigs'] != _AROM_SIGS:
+        raise Unsupported('signatures of the aromaticity helpers of pysmiles changed: %r' % (pr['sigs'],))
+    out = 'Open Scope Z_scope.\n'
+    out += '(* pysmiles.smiles_helper.AROMATIC_ATOMS of the installed library *)\n'
+    out += 'Definition aromatic_atoms : list pystr := [%s].\n' % '; '.join(coq_str(a) for a in pr['atoms'])
+    out += '(* dekekulize: ring systems with more nodes than this are estimated, not enumerated *)\n'
+    out += 'Definition estimation_threshold : Z := %s.\n' % zlit(pr['threshold'])
+    out += 'Definition max_ring_size : Z := %s.\n' % zlit(pr['max_ring'])
+    return out
